@@ -189,8 +189,37 @@ def enum_cases(ctx):
                 ctx.sample({"part": "C", "string": v, "block_forms": forms})
 
 
+ADJACENT_DEFS = ['type T', 'type T @d', 'type T implements I', 'type T { f: Int }', 'extend type T @d', 'extend type T implements I', 'interface I',
+                 'extend interface I @d', 'input In', 'input In @d', 'extend input In @d', 'enum E', 'extend enum E @d', 'union U', 'union U @d',
+                 'extend union U @d', 'scalar S', 'scalar S @d', 'extend scalar S @d', 'extend schema @d', 'schema @d { query: Q }',
+                 'extend schema @d { mutation: M }', 'directive @d on FIELD', 'directive @d repeatable on FIELD | QUERY', '"desc" type T',
+                 'fragment F on T { x }', 'query Named { x }', '{ x }']
+ADJACENT_OPS = ['query { x }', '{ x }', 'query { query: Q }', 'query { mutation: M x }', 'query Q { x }', 'mutation { x }', 'subscription { x }',
+                'query @d { x }', 'query ($v: Int) { x }', '"desc" query { x }', 'query { ... on T { x } }', 'query { f: Int }']
+
+
+def adjacency_cases(ctx):
+    """A definition that may or may not be continued by a block in braces, followed by an operation whose keyword the printer
+    may or may not drop: every pair, both orders of what matters (what precedes an anonymous query decides its short form)."""
+    i = 0
+    for d in ADJACENT_DEFS:
+        for op in ADJACENT_OPS:
+            for text in (f'{d} {op}', f'{d}\n{op}\n{d}', f'{op} {d} {op}'):
+                i += 1
+                if not ctx.mine(i):
+                    continue
+                try:
+                    tree = parse(text, experimental_directives_on_directive_definitions=False)
+                except GraphQLSyntaxError:
+                    ctx.count("adjacency_cases_not_parseable")
+                    continue
+                ctx.case()
+                roundtrip(ctx, tree, 'document', {}, {"kind": "document", "source": text, "origin": "adjacent definitions"}, counter="adjacency_roundtrips_checked")
+
+
 def run_shard(ctx):
     enum_cases(ctx)
+    adjacency_cases(ctx)
     gen_cases(ctx, ctx.rng, ctx.n(40000, 700000))
 
 
